@@ -3,6 +3,8 @@
 //! request that is not an honest one; blind artefacts are bound to their statement).
 use crate::api::{self, Bytes, Opt, OptIdx, OptList, Suite};
 use crate::common::*;
+use crate::refmodel as rm;
+use bls12_381_plus::Scalar;
 use std::cell::RefCell;
 use std::collections::BTreeMap;
 use std::rc::Rc;
@@ -60,14 +62,17 @@ fn run(cx: &mut Cx, mode: Mode) {
     for s in 0..n_sessions {
         // workload: stride 37 is coprime to 642, so any 642 consecutive runs enumerate every
         // combination and a short batch still sees a spread of shapes
-        let enumerated = mode == Mode::Complete && cx.run_index < 642 && s == 0 || mode == Mode::Sound;
+        // (1 session in 6 leaves the table for the sizes around 32 / 64 / 128 committed messages)
+        let edge_run = mode == Mode::Sound && cx.run_index % 4 == 3;
+        let off_table = edge_run || cx.ch.chance("shape_off_table", 1, 6);
+        let enumerated = (mode == Mode::Complete && cx.run_index < 642 && s == 0 || mode == Mode::Sound) && !off_table;
         let (suite, l, m, dmask, dcmask) = if enumerated {
             let k = cx.ch.forced("small_combo", 642, cx.run_index.wrapping_mul(37));
             let (l, m, a, b) = small_combo(k);
             (Suite::from_idx(k / 321), l, m, Some(a), Some(b))
         } else {
             let su = gen_suite(cx);
-            (su, gen_count(cx, "L", true).min(40), gen_count(cx, "M", true).min(40), None, None)
+            (su, gen_count(cx, "L", true).min(40), if edge_run { cx.count("probe.list_length_at_a_power_of_two_edge"); [128usize, 64, 32, 129, 33, 65, 127, 63, 31][cx.ch.forced("M_edge_forced", 9, cx.run_index / 4) as usize] } else if off_table && cx.ch.chance("M_at_an_edge", 2, 3) { [31usize, 32, 33, 63, 64, 65, 127, 128, 129][cx.ch.choose("M_edge", 9) as usize] } else { gen_count(cx, "M", true).min(130) }, None, None)
         };
         let msgs_v: Vec<Bytes> = (0..l).map(|i| gen_message(cx, 1000 * (s + 1) + i as u64)).collect();
         let cm_v: Vec<Bytes> = (0..m).map(|i| gen_message(cx, 2000 * (s + 1) + i as u64)).collect();
@@ -181,9 +186,7 @@ fn receive(cx: &mut Cx, mode: Mode, s: Sess, bsig: Bytes, blind: Opt, issuer: No
     if mode == Mode::Sound {
         // single edits of (committed msgs, signer msgs, blind factor, header, pk, signature)
         for (which, n) in [(0u8, lnorm(&f.committed).len()), (1, lnorm(&f.msgs).len())] {
-            let all = ListFault::all(n);
-            let picks: Vec<ListFault> = if all.len() <= 50 { all } else { (0..30).map(|_| ListFault::random(&mut cx.ch, n)).collect() };
-            for lf in picks {
+            for lf in ListFault::pick(&mut cx.ch, n, 50, 20) {
                 let mut g = f.clone();
                 let tgt = if which == 0 { &mut g.committed } else { &mut g.msgs };
                 let mut v = tgt.take().unwrap_or_default();
@@ -286,7 +289,7 @@ fn bad_presentations(cx: &mut Cx, f: BlindPres, l: usize, m: usize, verifier: No
     }
     for which in 0..2u8 {
         let n = if which == 0 { lnorm(&f.dmsgs).len() } else { lnorm(&f.dcmsgs).len() };
-        for lf in ListFault::all(n) {
+        for lf in ListFault::pick(&mut cx.ch, n, 60, 15) {
             let mut g = f.clone();
             let tgt = if which == 0 { &mut g.dmsgs } else { &mut g.dcmsgs };
             let mut v = tgt.take().unwrap_or_default();
@@ -294,7 +297,7 @@ fn bad_presentations(cx: &mut Cx, f: BlindPres, l: usize, m: usize, verifier: No
             *tgt = Some(v);
             deliver_pres(cx, verifier, g, format!("{}_{}", if which == 0 { "dmsgs" } else { "dcmsgs" }, lf.kind()), ideal.clone());
         }
-        for pos in 0..n {
+        for pos in (0..n).filter(|&p| n <= 8 || p == 0 || p == n / 2 || p + 1 == n) {
             let honest = if which == 0 { inorm(&f.didx)[pos] } else { inorm(&f.dcidx)[pos] };
             let bound = if which == 0 { l } else { m };
             for c in int_corruptions(honest, bound).into_iter().filter(|&c| c < (1 << 31)) {
@@ -377,6 +380,42 @@ fn bad_requests(cx: &mut Cx, s: Sess, cwp: Bytes, issuer: NodeId, holder: NodeId
         for (name, tail) in [("random_scalars", { let mut t = bytes_for(cx.run_seed, b"idc", 0, cwp.len() - 48); for c in t.chunks_mut(32) { c[0] &= 0x3f; } t }), ("honest_scalars", cwp[48..].to_vec()), ("two_random_scalars", { let mut t = bytes_for(cx.run_seed, b"idc2", 0, 64); for c in t.chunks_mut(32) { c[0] &= 0x3f; } t })] {
             let mut b = id.clone(); b.extend_from_slice(&tail);
             send(cx, &s, b, &format!("forged:identity_commitment+{name}"), &ideal);
+        }
+    }
+    // Mallory: a commitment point OUTSIDE the prime-order subgroup (C + T with T of order 3 on the
+    // curve) with a Schnorr proof ground until the challenge is a multiple of 3, so that c*T
+    // vanishes from the verifier's equation: only the subgroup check of the decoder refuses it
+    {
+        use group::Curve;
+        let t3 = crate::scen_proof::small_order_point();
+        let cm = lnorm(&s.committed).to_vec();
+        if let (Ok(ms), Ok(g)) = (rm::messages_to_scalars(s.suite, &cm, &rm::api_id(s.suite, true)), rm::blind_generators(s.suite, cm.len() + 1)) {
+            let run_seed = cx.run_seed;
+            let sc = move |tag: u64| { let mut b = bytes_for(run_seed, b"offsub", tag, 32); b[0] &= 0x3f; rm::octets_to_scalar(&b).unwrap_or(Scalar::ONE) };
+            let blind = sc(0);
+            let mut c = g[0] * blind;
+            for i in 0..ms.len() { c += g[1 + i] * ms[i]; }
+            let c_off = c + t3;
+            // (a verifier may multiply C by c and subtract, or by the scalar -c = r - c: one frame per
+            //  residue class of the challenge modulo 3 covers both, r = 1 mod 3)
+            let mut done = [false; 3];
+            for attempt in 0..24u64 {
+                let s_tilde = sc(100 + attempt);
+                let m_tilde: Vec<Scalar> = (0..ms.len()).map(|i| sc(1000 + attempt * 300 + i as u64)).collect();
+                let mut cbar = g[0] * s_tilde;
+                for i in 0..ms.len() { cbar += g[1 + i] * m_tilde[i]; }
+                let Ok(chal) = rm::blind_challenge(s.suite, &c_off, &cbar, &g) else { break };
+                let res = crate::scen_proof::scalar_mod3(&chal) as usize;
+                if done[res] { continue; }
+                done[res] = true;
+                let mut o = c_off.to_affine().to_compressed().to_vec();
+                o.extend_from_slice(&(s_tilde + blind * chal).to_be_bytes());
+                for i in 0..ms.len() { o.extend_from_slice(&(m_tilde[i] + ms[i] * chal).to_be_bytes()); }
+                o.extend_from_slice(&chal.to_be_bytes());
+                cx.count("probe.off_subgroup_commitment_with_ground_challenge");
+                send(cx, &s, o, "forged:off_subgroup_commitment+ground_proof", &ideal);
+                if done.iter().all(|d| *d) { break; }
+            }
         }
     }
     // cross-suite replay: the honest request of this suite delivered to the other suite's issuer
